@@ -60,6 +60,8 @@ REQUIRED = {
     "ss-interior-critical": 0.004, "ps-foot-interior": 0.03, "ps-foot-end": 0.03, "ps-on-segment": 0.01,
     "poly-nonconvex": 0.05, "poly-convex": 0.05, "poly-axis-plane": 0.03, "poly-tilted-plane": 0.05,
     "pp-foot-inside": 0.01, "pp-foot-outside": 0.02, "sp-meets": 0.02, "sp-coplanar": 0.005, "sp-apart": 0.02,
+    "lattice": 0.3, "transformed": 0.3, "far-offset": 0.2, "far-offset-1e7": 0.05, "scaled": 0.2, "scaled-down": 0.05,
+    "scaled-up": 0.08,
 }
 RTOL, ATOL = 1e-9, 1e-12
 
@@ -221,14 +223,40 @@ def build(fn, dim, den, n):
     return s
 
 
+# Similarity transforms x -> scale * x + offset applied (in floating point) to the lattice configuration.  Scales are
+# unit factors, offsets m * OFFDIR with non-dyadic components (UTM-like for m = 1e7: 5.1e6, 6.7e6).  Only pairs with
+# m <= 5e7 * scale are used, so that the rounding noise of the coordinates (eps * m) stays below 1e-3 of the
+# absolute tolerance 1e-5 * scale that is handed to the polygon functions for scale < 1.
+OFFDIR = [0.5123456789, 0.6712345678, -0.1234567891]
+SCALES = [1e-4, 1e-2, 0.3048, 1.0, 3.7, 1e2, 1e4]
+MAGS = [0.0, 1e3, 1e5, 1e7]
+TRANSFORMS = [(sc, m) for sc in SCALES for m in MAGS if m <= 5e7 * sc and not (sc == 1.0 and m == 0.0)]
+
+
+def build_tf(fn, dim, den, n, tf):
+    s = build(fn, dim, den, n)
+    if tf is not None:
+        sc, m = TRANSFORMS[tf]
+        s["tf"] = {"scale": sc, "off": [m * c for c in OFFDIR]}
+    return s
+
+
 def strategy(tier):
-    return st.builds(build, st.sampled_from(FNS + ["points_polygon", "segments_polygon", "segment_segment_set"]),
-                     st.sampled_from([2, 3, 3]), st.sampled_from([1, 1, 2, 4]), big_int(320))
+    return st.builds(build_tf, st.sampled_from(FNS + ["points_polygon", "segments_polygon", "segment_segment_set"]),
+                     st.sampled_from([2, 3, 3]), st.sampled_from([1, 1, 2, 4]), big_int(320),
+                     st.one_of(st.none(), st.integers(0, len(TRANSFORMS) - 1)))
 
 
 # ----------------------------------------------------------------------------- helpers
 def _real(p, s):
-    return [x / s["den"] for x in p]  # exact: den is a power of two
+    """Coordinates handed to porepy.  Lattice class: integer / den, exact.  Transformed class: scale * (integer /
+    den) + offset evaluated in floating point; the rounded floats ARE the input, and the oracle converts them
+    exactly (so exact degeneracies of the lattice configuration become perturbed by ~eps * |coordinate|)."""
+    base = [x / s["den"] for x in p]  # exact: den is a power of two
+    tf = s.get("tf")
+    if tf is None:
+        return base
+    return [b * tf["scale"] + o for b, o in zip(base, tf["off"])]
 
 
 def _arr(points, s):
@@ -240,18 +268,33 @@ def _poly(s):
     return [eg.pt(_real(lt.embed(q, pg["o"], pg["u"], pg["v"]), s)) for q in pg["poly2"]]
 
 
-def _scale(*arrs):
-    return max(1.0, max(float(np.max(np.abs(a))) for a in arrs if a.size))
+EPS = 2.220446049250313e-16
+CEPS = 256  # "a few eps": head room for perturbed degeneracies (near-parallel, near-coplanar) and the non-planarity
+#             of a rounded polygon, all of size ~eps * max|coordinate|
 
 
-def _dist_ok(d, d2_exact, scale, tag, what):
+def _tolv(s, *arrs):
+    """Absolute tolerance for distances and closest points.
+    Lattice class (as before): 1e-9 * max(1, max|coordinate|) + 1e-12.
+    Transformed class: CEPS * eps * max|coordinate| + 1e-12 * extent of the configuration - what an evaluation that
+    forms coordinate differences first achieves (with head room), independent of where the configuration sits."""
+    arrs = [a for a in arrs if a.size]
+    mx = max(float(np.max(np.abs(a))) for a in arrs)
+    if s.get("tf") is None:
+        return RTOL * max(1.0, mx) + ATOL
+    allp = np.hstack([a.reshape((a.shape[0], -1)) for a in arrs])
+    ext = float(np.max(np.ptp(allp, axis=1)))
+    return CEPS * EPS * mx + 1e-12 * ext
+
+
+def _dist_ok(d, d2_exact, tolv, tag, what):
     ex = math.sqrt(float(d2_exact))
-    require(abs(float(d) - ex) <= RTOL * scale + ATOL, tag, lambda: f"{what}: got {float(d)!r}, exact {ex!r}")
+    require(abs(float(d) - ex) <= tolv, tag, lambda: f"{what}: got {float(d)!r}, exact {ex!r}")
 
 
-def _on_segment(c, a, b, scale, tag, what):
+def _on_segment(c, a, b, tolv, tag, what):
     d2 = eg.sqdist_point_segment(eg.pt(c), a, b)
-    require(math.sqrt(float(d2)) <= RTOL * scale + ATOL, tag,
+    require(math.sqrt(float(d2)) <= tolv, tag,
             lambda: f"{what}: returned point {list(map(float, c))} is {math.sqrt(float(d2)):.3e} away from its segment")
 
 
@@ -271,33 +314,48 @@ def check(s):
 
     fn, dim = s["fn"], s["dim"]
     labels = [fn, f"{dim}d", f"den{s['den']}"]
+    tf = s.get("tf")
+    if tf is None:
+        labels.append("lattice")
+    else:
+        labels.append("transformed")
+        if any(tf["off"]):
+            labels.append("far-offset")
+            if max(abs(o) for o in tf["off"]) >= 1e6:
+                labels.append("far-offset-1e7")
+        if tf["scale"] != 1.0:
+            labels.append("scaled")
+            labels.append("scaled-down" if tf["scale"] < 1 else "scaled-up")
+    # the polygon functions have an absolute tolerance (default 1e-5, meant for O(1) geometry): for configurations
+    # scaled down it is passed scaled, as a caller working in small units has to do
+    ptol = {} if tf is None or tf["scale"] >= 1 else {"tol": 1e-5 * tf["scale"]}
     nontrivial = False
 
     if fn == "pointset":
         P = _arr(s["pts"], s)
         E = [eg.pt(_real(p, s)) for p in s["pts"]]
-        scale = _scale(P)
+        tolv = _tolv(s, P)
         k = P.shape[1]
         M = dist.pointset(P, s["max_diag"])
         require(M.shape == (k, k), "pointset-shape", f"{M.shape}")
         ex = np.array([[math.sqrt(float(eg.norm2(eg.sub(E[i], E[j])))) for j in range(k)] for i in range(k)])
         if s["max_diag"] and k > 1:
             ex = ex + 2 * np.diag(ex.max(axis=1))
-        require(np.max(np.abs(M - ex)) <= RTOL * scale + ATOL, "pointset-values",
+        require(np.max(np.abs(M - ex)) <= tolv, "pointset-values",
                 lambda: f"pointset({P.tolist()}, {s['max_diag']}) = {M.tolist()} expected {ex.tolist()}")
         p = np.array(_real(s["p"], s), dtype=float)
         pe = eg.pt(_real(s["p"], s))
         got = dist.point_pointset(p if s["flat"] else p.reshape((-1, 1)), P)
         require(got.shape == (k,), "point-pointset-shape", f"{got.shape}")
         for j in range(k):
-            _dist_ok(got[j], eg.norm2(eg.sub(pe, E[j])), scale, "point-pointset-values", f"point_pointset {j}")
+            _dist_ok(got[j], eg.norm2(eg.sub(pe, E[j])), tolv, "point-pointset-values", f"point_pointset {j}")
         nontrivial = k >= 2
 
     elif fn == "points_segments":
         S = _arr([x[0] for x in s["segs"]], s)
         T = _arr([x[1] for x in s["segs"]], s)
         P = _arr(s["pts"], s)
-        scale = _scale(S, T, P)
+        tolv = _tolv(s, S, T, P)
         d, cp = dist.points_segments(P, S, T)
         npt, ns = P.shape[1], S.shape[1]
         require(d.shape == (npt, ns) and cp.shape == (npt, ns, dim), "points-segments-shape", f"{d.shape} {cp.shape}")
@@ -308,8 +366,8 @@ def check(s):
                 a, b = eg.pt(_real(a, s)), eg.pt(_real(b, s))
                 c = eg.closest_point_on_segment(pe, a, b)
                 what = f"points_segments p={_real(p, s)} seg={[float(x) for x in a]}-{[float(x) for x in b]}"
-                _dist_ok(d[i, j], eg.norm2(eg.sub(pe, c)), scale, "points-segments-distance", what)
-                require(all(abs(float(cp[i, j, m]) - float(c[m])) <= RTOL * scale + ATOL for m in range(dim)),
+                _dist_ok(d[i, j], eg.norm2(eg.sub(pe, c)), tolv, "points-segments-distance", what)
+                require(all(abs(float(cp[i, j, m]) - float(c[m])) <= tolv for m in range(dim)),
                         "points-segments-closest-point",
                         lambda: f"{what}: cp {cp[i, j].tolist()} exact {[float(x) for x in c]}")
                 t = eg.dot(eg.sub(pe, a), eg.sub(b, a)) / eg.norm2(eg.sub(b, a))
@@ -323,24 +381,24 @@ def check(s):
         segs = [(eg.pt(_real(a, s)), eg.pt(_real(b, s))) for a, b in s["segs"]]
         S = _arr([x[0] for x in s["segs"]], s)
         T = _arr([x[1] for x in s["segs"]], s)
-        scale = _scale(S, T)
+        tolv = _tolv(s, S, T)
         k = len(segs)
 
         def pair(i, j, dij, ci, cj, tag):
             (a, b), (c, e) = segs[i], segs[j]
             what = f"{fn} seg{i}={s['segs'][i]} seg{j}={s['segs'][j]} den={s['den']}"
             d2 = eg.sqdist_segment_segment(a, b, c, e)
-            _dist_ok(dij, d2, scale, tag + "-distance", what)
-            _on_segment(ci, a, b, scale, tag + "-cp-off-first", what)
+            _dist_ok(dij, d2, tolv, tag + "-distance", what)
+            _on_segment(ci, a, b, tolv, tag + "-cp-off-first", what)
             if cj is not None:
-                _on_segment(cj, c, e, scale, tag + "-cp-off-second", what)
+                _on_segment(cj, c, e, tolv, tag + "-cp-off-second", what)
                 gap = math.sqrt(float(eg.norm2(eg.sub(eg.pt(ci), eg.pt(cj)))))
-                require(abs(gap - float(dij)) <= RTOL * scale + ATOL, tag + "-cp-gap",
+                require(abs(gap - float(dij)) <= tolv, tag + "-cp-gap",
                         lambda: f"{what}: |cp1-cp2| = {gap!r} but d = {float(dij)!r}")
             else:
                 # the point on i closest to j must be at distance d from segment j
                 g2 = eg.sqdist_point_segment(eg.pt(ci), c, e)
-                require(abs(math.sqrt(float(g2)) - float(dij)) <= RTOL * scale + ATOL, tag + "-cp-gap",
+                require(abs(math.sqrt(float(g2)) - float(dij)) <= tolv, tag + "-cp-gap",
                         lambda: f"{what}: cp on first is {math.sqrt(float(g2))!r} from second, d = {float(dij)!r}")
             return d2
 
@@ -392,20 +450,20 @@ def check(s):
 
         if fn == "points_polygon":
             P = _arr(s["pts"], s)
-            scale = _scale(PG, P)
-            d, cp, _in = dist.points_polygon(P.copy(), PG.copy())
+            tolv = _tolv(s, PG, P)
+            d, cp, _in = dist.points_polygon(P.copy(), PG.copy(), **ptol)
             require(d.shape == (P.shape[1],) and cp.shape == P.shape, "points-polygon-shape", f"{d.shape} {cp.shape}")
             for i, p in enumerate(s["pts"]):
                 pe = eg.pt(_real(p, s))
                 what = f"points_polygon p={_real(p, s)} poly={PG.T.tolist()}"
                 d2 = eg.sqdist_point_polygon(pe, poly)
-                _dist_ok(d[i], d2, scale, "points-polygon-distance", what)
+                _dist_ok(d[i], d2, tolv, "points-polygon-distance", what)
                 c = eg.pt(cp[:, i])
                 off = math.sqrt(float(eg.sqdist_point_polygon(c, poly)))
-                require(off <= RTOL * scale + ATOL, "points-polygon-cp-off-polygon",
+                require(off <= tolv, "points-polygon-cp-off-polygon",
                         lambda: f"{what}: cp {cp[:, i].tolist()} is {off:.3e} from the polygon")
                 gap = math.sqrt(float(eg.norm2(eg.sub(c, pe))))
-                require(abs(gap - float(d[i])) <= RTOL * scale + ATOL, "points-polygon-cp-gap",
+                require(abs(gap - float(d[i])) <= tolv, "points-polygon-cp-gap",
                         lambda: f"{what}: |p-cp| = {gap!r}, d = {float(d[i])!r}")
                 foot = eg.project_to_plane(pe, poly[0], nrm)
                 st_ = eg.point_in_polygon_3d(foot, poly)
@@ -415,16 +473,16 @@ def check(s):
         else:
             S = _arr([x[0] for x in s["segs"]], s)
             T = _arr([x[1] for x in s["segs"]], s)
-            scale = _scale(PG, S, T)
-            d, cp = dist.segments_polygon(S.copy(), T.copy(), PG.copy())
+            tolv = _tolv(s, PG, S, T)
+            d, cp = dist.segments_polygon(S.copy(), T.copy(), PG.copy(), **ptol)
             require(d.shape == (S.shape[1],) and cp.shape == S.shape, "segments-polygon-shape", f"{d.shape} {cp.shape}")
             for i, (a, b) in enumerate(s["segs"]):
                 a, b = eg.pt(_real(a, s)), eg.pt(_real(b, s))
                 what = f"segments_polygon seg={[float(x) for x in a]}-{[float(x) for x in b]} poly={PG.T.tolist()}"
                 d2 = eg.sqdist_segment_polygon(a, b, poly)
-                _dist_ok(d[i], d2, scale, "segments-polygon-distance", what)
+                _dist_ok(d[i], d2, tolv, "segments-polygon-distance", what)
                 c = eg.pt(cp[:, i])
-                tol = RTOL * scale + ATOL
+                tol = tolv
                 to_poly = math.sqrt(float(eg.sqdist_point_polygon(c, poly)))
                 to_seg = math.sqrt(float(eg.sqdist_point_segment(c, a, b)))
                 ok = (to_poly <= tol and abs(to_seg - float(d[i])) <= tol) or \
